@@ -131,10 +131,16 @@ def chains(rnd, n_chains, rounds=5):
 
 def _scale_chain(args):
     """members join one at a time up to max_m, stay one round, then leave one at a time"""
-    ntopics, nparts, descending, stranger, max_m = args
+    ntopics, nparts, descending, stranger, max_m = args[:5]
+    reverse_listing = len(args) > 5 and args[5]
     A = assignors()["sticky"]
     topics = ["t%d" % i for i in range(ntopics)]
     parts = {t: nparts for t in topics}
+    if reverse_listing:
+        # uneven topics, all members list them in the same non-alphabetical order (a member lists its subscription in set
+        # order); the joiner of each round has no user data yet
+        parts = {t: max(1, nparts - 3 * i) for i, t in enumerate(topics)}
+        topics = topics[::-1]
     if stranger:
         parts["unsubscribed"] = 3            # a cluster topic nobody subscribes to (pattern subscriptions see those)
     names = ["m%02d" % i for i in range(max_m)]
@@ -160,6 +166,7 @@ def _scale_chain(args):
 
 def scale_chains(max_p, max_m, jobs=16):
     cases = [(nt, p, d, s, max_m) for nt in (1, 2) for p in range(1, max_p + 1) for d in (False, True) for s in (False, True)]
+    cases += [(nt, p, d, False, max_m, True) for nt in (2, 3) for p in range(1, max_p + 1) for d in (False, True)]
     n, fails = 0, []
     with mp.Pool(jobs) as pool:
         for a, f in pool.imap_unordered(_scale_chain, cases, chunksize=4):
@@ -199,7 +206,7 @@ def main():
     n, fails = scale_chains(mp_, mm)
     emit({"name": "sticky-scale-out-in-chains", "exhaustive": True, "cases": n, "distinct_nontrivial": n,
           "bound": "1..2 topics x 1..%d partitions each x member ids ascending/descending x with/without a cluster topic nobody "
-                   "subscribes to: members join one at a time up to %d, one identical round, then leave one at a time "
+                   "subscribes to, and 2..3 topics of uneven size listed by every member in reverse alphabetical order: members join one at a time up to %d, one identical round, then leave one at a time "
                    "(every round checked against a/b/c)" % (mp_, mm),
           "failures": fails[:20], "failures_total": len(fails), "replay": {"script": REPLAY_SCALE}})
     n, fails = chains(random.Random(a.seed), nch)
